@@ -424,6 +424,10 @@ def replay_file(prop, path):
     module = _import_check(prop)
     with open(path) as f:
         doc = json.load(f)
+    if doc.get('kind') == 'stuck':
+        # a hang of the worker processes: reproduced by running the tier again under its base seed
+        os.environ['VERIF_SEED'] = str(doc['base_seed'])
+        return _check_main(prop, doc.get('tier', 'quick'))
     if doc.get('kind') == 'history':
         r = run_history(prop, doc.get('tier', 'quick'), doc['base_seed'], doc['run_indices'])
         v = r['violation']
@@ -496,8 +500,21 @@ def drive(prop, tier, base_seed, nruns, budget_s, workers=None, sweep=True):
                 futs.append(ex.submit(batch, prop, tier, base_seed, nxt, c, deadline))
                 nxt += c
             pending = list(futs)
-            for f in as_completed(pending, timeout=budget_s + 120):
-                _merge(total, f.result())
+            try:
+                for f in as_completed(pending, timeout=budget_s + 120):
+                    _merge(total, f.result())
+            except TimeoutError:
+                # workers that neither finish nor honour their per-run wall limit are stuck in
+                # a loop no signal handler interrupts (inside one C call): kill them - leaving the
+                # pool would otherwise wait for them for ever - and report the hang
+                stuck = [f for f in pending if not f.done()]
+                for p in list(getattr(ex, '_processes', {}).values()):
+                    try:
+                        p.kill()
+                    except Exception:
+                        pass
+                ex.shutdown(wait=False, cancel_futures=True)
+                raise WorkersStuck(len(stuck), budget_s + 120)
         else:
             # thorough: keep submitting until the budget is used up
             pending = set(futs)
@@ -531,6 +548,12 @@ def drive(prop, tier, base_seed, nruns, budget_s, workers=None, sweep=True):
     total['sweeps'] = sweeps
     total['wall_s'] = time.time() - t0
     return module, total
+
+
+class WorkersStuck(Exception):
+    def __init__(self, n, secs):
+        Exception.__init__(self, '%d batches unfinished after %d s' % (n, secs))
+        self.n, self.secs = n, secs
 
 
 def _merge(total, a):
@@ -629,7 +652,20 @@ def _check_main(prop, tier):
     else:
         nruns = 10**9
         budget = float(os.environ.get('VERIF_BUDGET_S', getattr(module, 'THOROUGH_BUDGET_S', 600)))
-    module, total = drive(prop, tier, base_seed, nruns, budget)
+    try:
+        module, total = drive(prop, tier, base_seed, nruns, budget)
+    except WorkersStuck as e:
+        os.makedirs(REPLAYS(), exist_ok=True)
+        path = os.path.join(REPLAYS(), '%s-%d-stuck.json' % (prop, base_seed))
+        with open(path, 'w') as f:
+            json.dump({'property': prop, 'kind': 'stuck', 'clause': prop + '/hang', 'key': 'workers-stuck',
+                       'base_seed': base_seed, 'tier': tier,
+                       'violation': 'worker processes did not finish within %d s and ignored their per-run '
+                                    'wall limit (non-termination inside one C call); re-run the tier '
+                                    'with this base seed to reproduce' % e.secs}, f, indent=1)
+        print('violation: %s/hang [workers-stuck] %s' % (prop, e))
+        print('VIOLATION property=%s replay=%s' % (prop, path))
+        return 1
     known = load_known()
     rc_ = 0
     if total['errors']:
